@@ -368,3 +368,33 @@ Proof.
   unfold tv_accept. destruct (tv_acc (tagN 1 vs) (0, v0) l) as [[|]|] eqn:E; try discriminate.
   intros _. apply (tv_acc_sound_proof l 1 vs (0, v0) [] ); [cbn; lia|exact E].
 Qed.
+
+(* ------------------------------------------------- method level (sequential) facts *)
+Lemma tv_ctor_value_proof {A} (v0 : A) :
+  tv_get (tv_make v0) = v0 /\ tv_update (tv_make v0) = Some (tv_make v0, false).
+Proof. split; reflexivity. Qed.
+
+Lemma tv_assign_update_proof {A} (t : tval A) v1 v2 :
+  tv_update (tv_assign t v2) = Some ({| tv_new := false; tv_queued := None; tv_current := v2 |}, true)
+  /\ tv_assign (tv_assign t v1) v2 = tv_assign t v2
+  /\ tv_get (tv_assign t v2) = tv_get t.
+Proof. repeat split. Qed.
+
+Lemma tv_update_idem_proof {A} (t t' : tval A) b :
+  tv_update t = Some (t', b) -> tv_update t' = Some (t', false) /\ (b = false -> t' = t).
+Proof.
+  unfold tv_update. destruct (tv_new t) eqn:E.
+  - destruct (tv_queued t); [|discriminate]. intro H. inversion H; subst. split; [reflexivity|discriminate].
+  - intro H. inversion H; subst. rewrite E. auto.
+Qed.
+
+Lemma tv_ref_write_proof {A} (t : tval A) v :
+  tv_get (tv_setref t v) = v
+  /\ tv_new (tv_setref t v) = tv_new t /\ tv_queued (tv_setref t v) = tv_queued t
+  /\ (tv_new t = true -> tv_update (tv_setref t v) = tv_update t)
+  /\ (tv_new t = false -> tv_update (tv_setref t v) = Some (tv_setref t v, false)).
+Proof.
+  repeat split.
+  - intro H. unfold tv_update. cbn. rewrite H. reflexivity.
+  - intro H. unfold tv_update. cbn. rewrite H. reflexivity.
+Qed.
